@@ -30,6 +30,7 @@ import (
 )
 
 const c05Sep = " @ "
+const c05Alt = " ~ "
 
 // c05Canon is evCanon plus a canonical form of ERROR OBJECTS (the maps `except … as e` binds), so that programs
 // which keep one in a variable stay comparable: message text, position, source name and trace are printed as the
@@ -122,6 +123,8 @@ func c05Run(payload string) string {
 	vs := scope.NewScope(scope.GlobalScope)
 	var outs []string
 	for _, sec := range strings.Split(payload, c05Sep) {
+		// "<chained> [~ <as is>] ~ <spec>": the real code runs the first program (see c05Chains)
+		sec = strings.SplitN(sec, c05Alt, 2)[0]
 		src := unhx(strings.SplitN(sec, " ", 2)[0])
 		outs = append(outs, c05Outcome(vs, src))
 	}
@@ -363,6 +366,26 @@ var c05InnerDecl = []struct{ name, src string }{
 	{"two levels of helpers", "let f := {\"k\": \"h1\", \"m\": func () {\nlet f := {\"k\": \"h2\", \"m\": func () {\nreturn this.k\n}}\nlet a := new(f)\nx.mark(a.m())\nreturn this.k\n}}\nlet a := new(f)\nx.mark(a.m())"},
 	{"helper instantiated twice, second call after the first returned", "let f := {\"k\": 0, \"m\": func (b) {\nthis.k := this.k + b\nreturn this.k\n}}\nlet a := new(f)\nlet o := new(f)\nx.mark(a.m(1), o.m(10), a.m(100))"},
 	{"recursive helper method", "let f := {\"k\": \"helper\", \"m\": func (b) {\nif (b > 0) and (b < 4) {\nreturn [b, this.m(b - 1)]\n}\nreturn this.k\n}}\nlet a := new(f)\nx.mark(a.m(2))"},
+}
+
+// calls of a call result — known finding call-result-not-callable (candidate repair:
+// fixes/C05-call-of-call-result.patch): `f()(x)` yields the value of `f()`; every call after the first funccall of an
+// identifier node is silently dropped (resolveFunction stops after the first funccall child, functionResolved keeps
+// what follows the LAST one). The model does not evaluate chains after a call itself, so a case carries three
+// programs "<chained> ~ <as is> ~ <spec>": the real code runs the chained form; the model runs `asis` (the chained
+// form with the dropped calls removed = the code as it is; the main result, marked kf=call-result-not-callable) and
+// `plain` (the meaning: `let t := f(); t(x)` in a block of its own; attached as spec=). asis == "" : nothing is
+// dropped in that program (calls on a LATER identifier of the chain work), no kf.
+var c05Chains = []struct{ pre, chained, asis, plain string }{
+	{"func f() {\nreturn func (a) {\nreturn [7, a]\n}\n}\na := 5", "x.mark(f()(1))\nx.mark(f()(a))\nx.mark(f()(f))", "x.mark(f())\nx.mark(f())\nx.mark(f())", "let c := f()\nx.mark(c(1))\nlet c := f()\nx.mark(c(a))\nlet c := f()\nx.mark(c(f))"},
+	{"func f() {\nreturn func () {\nreturn func (a) {\nreturn a\n}\n}\n}", "x.mark(f()()(3))", "x.mark(f())", "let c := f()\nlet b := c()\nx.mark(b(3))"},
+	{"o := {\"m\": func () {\nreturn {\"k\": 5, \"n\": func (b) {\nreturn b + 1\n}}\n}}", "x.mark(o.m().n(2))", "", "let c := o.m()\nx.mark(c.n(2))"},
+	{"func f() {\nreturn func () {\nreturn 4\n}\n}\na := [f]", "x.mark(a[0]()())", "x.mark(a[0]())", "let c := a[0]()\nx.mark(c())"},
+	{"func f() {\nreturn 1\n}", "x.mark(f()(2))", "x.mark(f())", "let c := f()\nx.mark(c(2))"},
+	{"func f() {\nraise(\"E\")\n}", "x.mark(f()(2))", "", "let c := f()\nx.mark(c(2))"},
+	{"c := 9\nfunc f() {\nreturn func (a, b=c) {\nreturn [a, b]\n}\n}", "x.mark(f()(1))\nx.mark(f()(1, 2))", "x.mark(f())\nx.mark(f())", "let g := f()\nx.mark(g(1))\nlet g := f()\nx.mark(g(1, 2))"},
+	{"o := 0\nfunc f(a) {\nreturn func (b) {\nreturn func (c) {\nreturn [a, b, c]\n}\n}\n}", "x.mark(f(1)(2)(3))\no := f(4)(5)\nx.mark(o(6))", "x.mark(f(1))\no := f(4)\nx.mark(o(6))", "let g := f(1)\nlet c := g(2)\nx.mark(c(3))\nlet g := f(4)\no := g(5)\nx.mark(o(6))"},
+	{"a := {\"k\": 1, \"m\": func () {\nreturn this\n}, \"n\": func (b) {\nthis.k := b\nreturn this.k\n}}\no := new(a)", "x.mark(o.m().n(3))\nx.mark(o.k)", "", "let c := o.m()\nx.mark(c.n(3))\nx.mark(o.k)"},
 }
 
 // ---------------------------------------------------------------- random programs
@@ -755,6 +778,25 @@ func init() {
 			for _, oc := range c05OuterCtx {
 				for _, in := range c05InnerDecl {
 					emit("exhaustive outer context x inner declaration (nested this/super/params)", fmt.Sprintf(oc.src, in.src), "o", "a", "[b, c, g]", "f")
+				}
+			}
+			// (6c) calls of a call result: chained form for the real code, let-desugaring for the model
+			for _, ch := range c05Chains {
+				for _, cx := range []struct{ pre, post string }{{"", ""}, {"func g() {\n", "\n}\ng()"}, {"for b in [1] {\n", "\n}"}} {
+					goSrc := ch.pre + "\n" + cx.pre + ch.chained + cx.post
+					specSrc := ch.pre + "\n" + cx.pre + "if true {\n" + ch.plain + "\n}" + cx.post
+					asisSrc := ""
+					if ch.asis != "" {
+						asisSrc = ch.pre + "\n" + cx.pre + ch.asis + cx.post
+					}
+					g.Count("directed call of a call result (known finding call-result-not-callable; spec = let-desugaring)")
+					lz.Emit(func() string {
+						first := evPayload(goSrc)
+						if asisSrc != "" {
+							first += c05Alt + evPayload(asisSrc)
+						}
+						return first + c05Alt + evPayload(specSrc) + c05Sep + evPayload("a") + c05Sep + evPayload("o")
+					})
 				}
 			}
 			// (7) random programs
